@@ -17,16 +17,21 @@ pub broadcast group group_varint { axiom_var_enc_len, axiom_var_dec_enc, axiom_v
 pub trait VarInt: Sized {
     spec fn vi_to_u64(self) -> u64;
     spec fn vi_fits(x: u64) -> bool;
+    /// what the vendored crate's `result as Self` makes of the decoded 64-bit value
+    spec fn vi_trunc(x: u64) -> u64;
     fn encode_var_vec(self) -> (r: Vec<u8>)
         ensures r@ == var_enc(self.vi_to_u64());
     fn decode_var(src: &[u8]) -> (r: Option<(Self, usize)>)
         ensures
-            r matches Some(p) ==> var_dec(src@) == Some((p.0.vi_to_u64(), p.1 as int)),
-            r is None ==> (var_dec(src@) is None || !Self::vi_fits(var_dec(src@).unwrap().0));
+            // (integer-encoding 3.0.4 `impl_varint!`: decodes as u64, then `result as Self` - a value that does
+            // not fit the narrow type is TRUNCATED, not rejected; `None` only for an unterminated varint)
+            r matches Some(p) ==> (var_dec(src@) matches Some(d) && d.1 == p.1 as int && p.0.vi_to_u64() == Self::vi_trunc(d.0)),
+            r is None ==> var_dec(src@) is None;
 }
 impl VarInt for u64 {
     open spec fn vi_to_u64(self) -> u64 { self }
     open spec fn vi_fits(x: u64) -> bool { true }
+    open spec fn vi_trunc(x: u64) -> u64 { x }
     #[verifier::external_body]
     fn encode_var_vec(self) -> (r: Vec<u8>) { unimplemented!() }
     #[verifier::external_body]
@@ -35,6 +40,7 @@ impl VarInt for u64 {
 impl VarInt for u32 {
     open spec fn vi_to_u64(self) -> u64 { self as u64 }
     open spec fn vi_fits(x: u64) -> bool { x <= u32::MAX }
+    open spec fn vi_trunc(x: u64) -> u64 { (x as u32) as u64 }
     #[verifier::external_body]
     fn encode_var_vec(self) -> (r: Vec<u8>) { unimplemented!() }
     #[verifier::external_body]
